@@ -814,9 +814,14 @@ static void run_att(vh::Trace& tr, vh::Rng& rng, int level) {
     // mu chosen so that the ACF along the y-parallel chord (length (2 by + 1) * 4 mm) is about 2^k
     // (a chord of 2 n + 1 voxels of `vox' mm)
     auto mu_for = [&](int n, int vox, int k) { return (long)std::llround(k * 0.6931471805599453 * 10.0 / ((2 * n + 1) * (double)vox) * 65536.0); };
-    imgs.push_back(box(half - 3, half - 2, mu_for(half - 2, sy.vy, 1)));     // ACF ~ 2 along the y-parallel chords
-    imgs.push_back(box(half - 4, half - 2, mu_for(half - 4, sy.vx, 2)));     // ACF ~ 4 along the x-parallel chords
-    if (level > 0) imgs.push_back(box(half - 4, half - 3, mu_for(half - 3, sy.vy, 3)));
+    // boxes that fit into the projectors' cylindrical field of view (radius about half * min voxel size ... ): the chord
+    // direction spans 0.75 of the radius either way, the perpendicular direction 0.62 of it
+    const double fov = std::min(half * (double)sy.vx, half * (double)sy.vy);
+    auto along = [&](int vox) { return std::max(1, (int)std::floor(0.75 * fov / vox - 0.5)); };
+    auto across = [&](int vox) { return std::min(half - 1, std::max(1, (int)std::ceil(0.62 * fov / vox - 0.5))); };
+    imgs.push_back(box(across(sy.vx), along(sy.vy), mu_for(along(sy.vy), sy.vy, 1)));     // ACF ~ 2 along the y-parallel chords
+    imgs.push_back(box(along(sy.vx), across(sy.vy), mu_for(along(sy.vx), sy.vx, 2)));     // ACF ~ 4 along the x-parallel chords
+    if (level > 0) imgs.push_back(box(across(sy.vx) + 1, along(sy.vy) - 1, mu_for(along(sy.vy) - 1, sy.vy, 3)));
     { Img z; z.im = c03::make_image(*G.pdi, gc); z.im->fill(0.F); z.json = "{\"kind\":\"zero\"}"; imgs.push_back(z); }
     const int first_rand = (int)imgs.size() + 1;
     auto rnd = [&](int denom) {
